@@ -57,7 +57,8 @@ def configs(base=None):
                  "processes": [{"rate": "r%d*%s" % (i + 1, states[i]), "route": "event",
                                 "trans": [{"type": "T", "o": states[i], "d": states[i + 1], "mag": "1"}]} for i in range(k - 1)]}
         t = round(rng.uniform(0.4, 1.5) / (sum(rates) / len(rates)), 6)
-        out.append({"id": "chain%d" % k, "kind": "chain", "model": model, "theta": rates, "x0": [N] + [0] * (k - 1), "t": t, "N": N})
+        out.append({"id": "chain%d" % k, "kind": "chain", "model": model, "theta": rates, "x0": [N] + [0] * (k - 1), "t": t, "N": N,
+                    "t0": [0.0, 1.5, 2.25][c]})        # the law depends on elapsed time only: some runs start later
     for c in range(3):
         N = rng.choice([20, 30, 40, 60])
         i0 = rng.choice([1, 2, 3])
@@ -66,7 +67,8 @@ def configs(base=None):
         model = {"states": [{"name": "S"}, {"name": "I"}, {"name": "R"}], "params": ["beta", "gamma"],
                  "processes": [{"rate": "beta*S*I/%d" % N, "route": "event", "trans": [{"type": "T", "o": "S", "d": "I", "mag": "1"}]},
                                {"rate": "gamma*I", "route": "event", "trans": [{"type": "T", "o": "I", "d": "R", "mag": "1"}]}]}
-        out.append({"id": "sir%d" % c, "kind": "sir", "model": model, "theta": [beta, gamma], "x0": [N - i0, i0, 0], "N": N, "i0": i0})
+        out.append({"id": "sir%d" % c, "kind": "sir", "model": model, "theta": [beta, gamma], "x0": [N - i0, i0, 0], "N": N, "i0": i0,
+                    "t0": [0.0, 0.0, 3.0][c]})
     out.append({"id": "pool", "kind": "pool"})
     return out
 
@@ -140,8 +142,9 @@ def run_chunk(case):
     jcase = {"engine": "jump", "model": cfg["model"], "theta": cfg["theta"], "x0": cfg["x0"], "t0": cfg.get("t0", 0.0),
              "env": {"K": "lambda", "R": {"mode": "natural"}}, "ops": [], "est_events": case.get("est_events", 2000.0)}
     kind = cfg["kind"]
+    t0 = float(cfg.get("t0", 0.0))
     if kind == "chain":
-        horizon = cfg["t"]
+        horizon = t0 + cfg["t"]
     elif kind == "sir":
         horizon = 1e6                       # until extinction
         jcase["est_events"] = 4.0 * cfg["N"]
@@ -164,7 +167,7 @@ def run_chunk(case):
             # every other path of a closed-form configuration is observed through gridded output
             gridded = kind in ("chain", "sir") and pth % 2 == 1
             if gridded:
-                tgrid = np.array([0.0, cfg["t"], 3.0 * cfg["t"]]) if kind == "chain" else np.array([0.0, 400.0, 1000.0])
+                tgrid = np.array([t0, t0 + cfg["t"], t0 + 3.0 * cfg["t"]]) if kind == "chain" else np.array([t0, t0 + 400.0, t0 + 1000.0])
                 try:
                     Xg, Jg, Tg = sess.ode.solve_stochast(tgrid, 1, exact=True, full_output=True)
                 except (jump.seams.StepCap, jump.seams.Explosion):
@@ -225,7 +228,7 @@ def run_chunk(case):
                     choice_n[j] += 1
             # layer 3
             if kind == "chain":
-                idx = int(np.searchsorted(T, cfg["t"], side="right")) - 1
+                idx = int(np.searchsorted(T, t0 + cfg["t"], side="right")) - 1
                 st_ = X[max(idx, 0)]
                 occ = st_.copy() if occ is None else occ + st_
             elif kind == "sir":
